@@ -6,6 +6,7 @@ Mapper-free (mappers: suite `mapper`).  Serves C05, C06 (and C10 with the truste
 import collections
 import copy
 import json
+import random
 
 from typedpy import Deserializer, Serializer, serialize
 from typedpy.structures import TypedPyDefaults
@@ -225,8 +226,50 @@ def nested_extra_docs(doc, limit=3):
 
 # ------------------------------------------------------------------ generation
 
-def gen_cases(rng, tier, n_classes, lossy=0.2):
+# ordered pairs of AnyOf options: the instance may hold either alternative, and an option listed earlier must not
+# capture (deserialize) the JSON form of a later one
+ANYOF_CATALOGUE = [
+    {"k": "integer"}, {"k": "string"}, {"k": "boolean"}, {"k": "noneF"},
+    {"k": "enumCls", "cls": "Color", "names": ["RED", "GREEN", "BLUE"]},
+    {"k": "seqOf", "item": {"k": "string"}}, {"k": "seqOf", "item": {"k": "integer"}},
+    {"k": "seqOf", "item": {"k": "string"}, "seq": "deque"},
+    {"k": "setOf", "item": {"k": "integer"}}, {"k": "setOf", "item": {"k": "string"}},
+    {"k": "tupleOf", "item": {"k": "string"}},
+    {"k": "mapOf", "key": {"k": "string"}, "val": {"k": "integer"}},
+    {"k": "mapOf", "key": {"k": "integer"}, "val": {"k": "string"}},
+    {"k": "struct", "name": "APt", "required": ["x"], "addl": False, "fields": [["x", {"k": "integer"}]]},
+]
+
+
+def anyof_pair_cases(rng, limit=None):
+    vg = gen.ValGen(rng)
+    pairs = [(a, b) for a in ANYOF_CATALOGUE for b in ANYOF_CATALOGUE if a is not b]
+    if limit is not None and len(pairs) > limit:
+        pairs = rng.sample(pairs, limit)
     cases = []
+    for pi, (a, b) in enumerate(pairs):
+        cls = {"k": "struct", "name": f"AP{pi}", "required": ["f"], "addl": False,
+               "fields": [["f", {"k": "anyOf", "fields": [copy.deepcopy(a), copy.deepcopy(b)]}]]}
+        C.fix_accepts(cls)
+        vals = []
+        for opt in (a, b):
+            v = vg.valid(opt)
+            if v is not gen.NOVALUE:
+                vals.append(v)
+            e = vg.of_len(opt, 0)
+            if e is not gen.NOVALUE:
+                vals.append(e)
+        for v in vals:
+            if v is None:
+                continue      # a required field holding None is another matter
+            kw = [["f", v]]
+            cases.append({"suite": "serde", "mode": "roundtrip", "stream": "anyof-pair", "cls": cls, "kw": kw,
+                          "opts": {"keepUndefined": False, "ignoreInvalidAddl": False}, "re": gen.re_table(cls, kw)})
+    return cases
+
+
+def gen_cases(rng, tier, n_classes, lossy=0.2):
+    cases = anyof_pair_cases(random.Random(str(rng.getstate()[1][0])))   # own stream: the main one is not shifted
     for ci in range(n_classes):
         allow = SER_KINDS + (LOSSY_KINDS if rng.random() < lossy else [])
         dg = gen.DeclGen(rng, max_depth=rng.choice([1, 2, 3 if tier == "quick" else 4]), allow=allow)
